@@ -399,6 +399,10 @@ func c09Render(spec c09Spec, policy string, seed uint64, dir string, tag string)
 
 // child: args = policy seed history concurrency specJSON...
 func childC09(args []string) {
+	if v := os.Getenv("C12_PIN"); v != "" { // a process that may use n CPUs only: NumCPU() == n in the re-executed image
+		n, _ := strconv.Atoi(v)
+		c12PinToCPUs(n)
+	}
 	policy := args[0]
 	seed, _ := strconv.ParseUint(args[1], 10, 64)
 	history, _ := strconv.Atoi(args[2])
@@ -427,7 +431,7 @@ func childC09(args []string) {
 		o := specs[(k+1)%len(specs)]
 		c09Render(c09Spec{o.Model, o.Renderer, 8 + k%5, "mem"}, "none", seed, dir, "hist")
 	}
-	cfg := fmt.Sprintf("GOMAXPROCS=%d policy=%s history=%d concurrent=%d", runtime.GOMAXPROCS(0), policy, history, conc)
+	cfg := fmt.Sprintf("GOMAXPROCS=%d NumCPU=%d policy=%s history=%d concurrent=%d", runtime.GOMAXPROCS(0), runtime.NumCPU(), policy, history, conc)
 	var out []c09Result
 	if policy == "pressure" {
 		// all specs at once, unperturbed but many, next to a render whose evaluations stall every worker: the shared
@@ -555,6 +559,10 @@ func checkC09(c *Ctx) {
 	// queue pressure (non-race binary, light wrappers): a reference render alone, then 8 of the same at once under stalled workers
 	heavy := c09Spec{"sphere", "mc-uniform", c.Pick(150, 260), "mem"}
 	jobs = append(jobs, job{cfg{16, 0, 1, "light"}, []c09Spec{heavy}, 900001})
+	// the same render in processes that may use 1, 3 and 5 CPUs only (taskset, a cpuset, a smaller machine): NumCPU() differs
+	for k, n := range []int{1, 3, 5} {
+		jobs = append(jobs, job{cfg{n, 0, 1, fmt.Sprintf("light@cpus=%d", n)}, []c09Spec{heavy}, uint64(900010 + k)})
+	}
 	jobs = append(jobs, job{cfg{16, 0, 8, "pressure"}, []c09Spec{heavy, heavy, heavy, heavy, heavy, heavy, heavy, heavy}, 900002})
 	jobs = append(jobs, job{cfg{4, 0, 8, "pressure"}, []c09Spec{heavy, heavy, heavy, heavy, heavy, heavy, heavy, heavy}, 900003})
 	// large meshes (hundreds of thousands of triangles: chunked / parallel collection paths), non-race, several schedules
@@ -579,16 +587,31 @@ func checkC09(c *Ctx) {
 	}
 	parallelFor(len(jobs), func(i int) {
 		j := jobs[i]
-		args := []string{j.cf.policy, strconv.FormatUint(c.Seed*7919+j.seed, 10), strconv.Itoa(j.cf.history), strconv.Itoa(j.cf.conc)}
+		policy, pin := j.cf.policy, ""
+		if k := strings.Index(policy, "@cpus="); k >= 0 {
+			policy, pin = policy[:k], policy[k+6:]
+		}
+		args := []string{policy, strconv.FormatUint(c.Seed*7919+j.seed, 10), strconv.Itoa(j.cf.history), strconv.Itoa(j.cf.conc)}
 		for _, s := range j.specs {
 			b, _ := json.Marshal(s)
 			args = append(args, string(b))
 		}
 		useBin := bin
-		if j.cf.policy == "light" || j.cf.policy == "pressure" || j.cf.policy == "halfbusy" {
+		if policy == "light" || policy == "pressure" || policy == "halfbusy" {
 			useBin = "" // volume, not race detection
 		}
-		res := runChild(useBin, "c09-run", args, []string{fmt.Sprintf("GOMAXPROCS=%d", j.cf.procs), "GORACE=halt_on_error=0"}, 20*time.Minute)
+		env := []string{fmt.Sprintf("GOMAXPROCS=%d", j.cf.procs), "GORACE=halt_on_error=0"}
+		if pin != "" {
+			env = []string{"C12_PIN=" + pin, "GORACE=halt_on_error=0"}
+		}
+		res := runChild(useBin, "c09-run", args, env, 20*time.Minute)
+		if pin != "" {
+			if strings.Contains(res.Out, "PIN-FAILED") {
+				c.Count("cpu_count_variants_skipped_affinity_not_settable", 1)
+				return
+			}
+			c.Count("cpu_count_variants_run", 1)
+		}
 		for _, rr := range parseRaces(res.Out) {
 			c.Count("race_reports", int64(rr.Count))
 			c.raceJudge(rr)
